@@ -18,6 +18,7 @@ import (
 	_ "verifsim/props/c09"
 	_ "verifsim/props/c12"
 	_ "verifsim/props/c13"
+	_ "verifsim/props/c14"
 	_ "verifsim/props/c16"
 )
 
